@@ -77,7 +77,10 @@ CHECKS = {
               'models tied to the code on malformed + near-miss streams on both engines; exact-type conforms() (user subclasses, mix- '
               'in Enums, shared Patterns) / input-mutation oracle, also over families of classes related by inheritance loaded in one history '
               '(base before derived and the reverse, fromdict / from_dict / fromlist / from_list / from_json) and over documents that lean '
-              'on declared defaults (short NamedTuple lists, dropped defaulted keys); directed reproductions of the recorded findings '),
+              'on declared defaults (short NamedTuple lists, dropped defaulted keys); Literal positions whose member lists mix types within '
+              'families of equal values (False / 0 / 0.0, True / 1 / 1.0, 2 / 2.0 ...; one or two Literal types per class) with inputs == to '
+              'a member under the type of another member, through fromdict / from_dict / from_json, v1 mostly (the v1 test is on the pair: '
+              'C05_v1_literal_member_by_value_and_type / C05_v1_literal_rejects); directed reproductions of the recorded findings '),
         technique='Lean 4 proof over a hand model + effect summaries + differential correspondence', ref='4 C05'),
     'C09': dict(
         text=('Lean theorems for both engines: the document-level deletion statement for the default engine (C09_key_deletion: any class without catch-all, any field loaders and Meta, any document that loads, any set of deleted keys - the sub-document loads exactly when no constructor field without default lost all the keys that resolve to it, else MissingFields names the class and exactly those fields; on success every field holds the converted value of the last remaining key, else its default / fresh factory product - induction over the key loop, which treats every key on its own); exact MissingFields list (class + exactly the absent required constructor fields, in declaration order for v1), init=False never demanded, defaulted never missing, on success every field holds the last supplied value or its default, kwargs contain constructor fields only (v1), a nested failure passes unchanged; models tied to the code by exhaustive key-subset correspondence (power sets) on default and v1 classes, on families of classes related by inheritance loaded in one history (derived classes adding required / defaulted fields; the result is an instance of the class asked for) and with debug mode switched on for the main class'),
